@@ -47,3 +47,32 @@ func VerifC03_Balancer() {
 	}
 	vpReach("end")
 }
+
+// VerifC03_BackupMove: a former backup owner (member 3) still holds a backup fragment with two keys; the partition's
+// backup owners are members 1 and 2 (ReplicaCount 3), either of which may be unreachable. The real balancer
+// (backupCopies -> scanPartition -> fragment.Move with two targets) runs a few passes on member 3. A key leaves
+// member 3 only when every current backup owner has it: whatever member 3 no longer holds is present on both.
+func VerifC03_BackupMove() {
+	cl := dmap.VerifNewBackupHandOver()
+	vpCl = cl
+	keys := [2]string{"k0", "k1"}
+	for i, k := range keys {
+		cl.PlaceBackup(3, "d", k, []byte{byte('A' + i)})
+	}
+	cl.SetDown(1, vpBool("down1"))
+	cl.SetDown(2, vpBool("down2"))
+	b := balancer.VerifNew(cl.Config(3), cl.Primary(3), cl.Backup(3), cl.RT(3), cl.Log(3))
+	for round := 0; round < 3; round++ {
+		b.VerifBackupCopies()
+	}
+	for i, k := range keys {
+		if _, still := cl.BackupOn(3, "d", k); still {
+			continue
+		}
+		for _, t := range [2]int{1, 2} {
+			v, ok := cl.BackupOn(t, "d", k)
+			vpAssert(ok && vpBytesEq(v, []byte{byte('A' + i)}), "key-dropped-by-the-sender-is-on-every-backup-owner")
+		}
+	}
+	vpReach("end")
+}
